@@ -111,6 +111,20 @@ CHECKS["C12"] = _core("C12", "programs with one fault planted under 0..4 nested 
                       "compared with the error's trace and with the lines quoted in the rendered message",
                       "DESIGN.md §5 C12", "Compile-error positions are checked in C10's block-prefix part.")
 
+CHECKS["C13"] = dict(
+    category="model_checking",
+    text="Iter.tla gives every adaptor two readings: the mathematical definition on a finite sequence, and a small state "
+         "machine with a private cursor pulling from the level below (the source logs every pull). TLC checks for every "
+         "well-formed pipeline in scope (25 adaptor instances, depth <= 2 quick / 3 thorough, source length 0..4/5) that the "
+         "machines produce exactly the defined sequence, stay exhausted, and pull each source element once in order. The "
+         "predictions are replayed: 9 stepwise next() calls over pull-logging generators (outputs exact; pulls of the source "
+         "and of second inputs bounded by the machines; none before consumption), 15 consumers over list/tuple/range sources "
+         "computed from the defined sequence, and copy independence.",
+    design_ref="DESIGN.md §5 C13",
+    note="Pull counts are an upper bound only (read-ahead of step/chunks/windows is not documented); copy independence for "
+         "built-in sources only.",
+    technique="TLC model checking of adaptor state machines against definitions (Iter.tla) + spec->implementation replay",
+    engine="iter")
 CHECKS["C14"] = _core("C14", "every / sampled sequence of 2, 3 and 6 container actions over a 100-action alphabet on three aliasable "
                       "variables (whole visible state printed after each action) and the equality / ordering / map-key / sort / "
                       "map-order law families; additionally TLC model-checks the machine itself as a transition system "
@@ -179,6 +193,8 @@ def main():
         "engines": [
             {"name": "chunkcfg", "path": "spec/ChunkCfg.tla", "serves_properties": ["C05"],
              "kind_free_text": "TLA+ abstract interpreter whose input is real decoded bytecode; TLC explores every path"},
+            {"name": "iter", "path": "spec/Iter.tla", "serves_properties": ["C13"],
+             "kind_free_text": "TLA+ adaptor state machines checked against sequence definitions; predictions replayed"},
             {"name": "modules", "path": "spec/Modules.tla", "serves_properties": ["C18"],
              "kind_free_text": "TLA+ state machine of the module cache; TLC enumerates module graphs and predicts the log of two host runs"},
             {"name": "kotovm", "path": "spec/KotoVm.tla", "serves_properties": ["C04", "C07", "C08"],
